@@ -384,6 +384,9 @@ func (fv *FV) closureAxiom(st *State, x *ast.FuncLit, t Term) {
 	// evaluate the body with universally quantified parameters
 	var pnames []*ast.Ident
 	for _, f := range x.Type.Params.List {
+		if len(f.Names) == 0 {
+			pnames = append(pnames, &ast.Ident{Name: "_"}) // func(V) int64 { return 1 }: an unnamed parameter
+		}
 		pnames = append(pnames, f.Names...)
 	}
 	if len(pnames) != sig.Params().Len() {
